@@ -800,7 +800,37 @@ def rule_shared(ctx):
     C13.rule_R2(R.Retag(ctx, "C13."))
 
 
+def rule_matchers_forward(ctx):
+    """R4: what an analyzer reports for an observation IS the collection's best match: every `SignatureMatcher::matching_by_*` that
+    consults a FingerprintCollection returns the result of `find_best_match` on every path - no early exit decides `no match` before
+    the lookup, no condition on the observation filters its result"""
+    P = ctx.program
+    n = 0
+    for b in sorted(P.bodies.values(), key=lambda x: x.path):
+        if b.kind != "AssocFn" or not b.name.startswith("matching_by_") or "SignatureMatcher" not in (b.impl_self or "") or not b.blocks:
+            continue
+        fbm = Q.calls(b, "find_best_match")
+        if not fbm:
+            continue            # matching_by_user_agent / matching_by_mtu have their own rules
+        n += 1
+        S = T.Slicer(b, P)
+        bad = None
+        for (rb, j, term, _c) in TB.return_sites(b, P):
+            tt = T.strip(term)
+            if not T.has_call(tt, "find_best_match"):
+                bad = (rb, "returns %s without consulting the collection" % T.pp(tt)[:50])
+        # the lookup dominates every exit
+        for rblk in b.return_blocks():
+            if not any(C.dominates(b, fb, rblk) for fb, _ in fbm):
+                bad = bad or (rblk, "an exit is reachable without the lookup")
+        ctx.check(bad is None, "R4", "matcher:%s:%s" % (b.crate.replace("huginn_net_", ""), b.name), "returns find_best_match(..) on every path",
+                  "%s %s: the analyzer reports `no match` (or a filtered result) for observations the collection's distance function accepts, so what is reported is not "
+                  "the best match of a full scan" % (T.short(b.path), bad[1] if bad else ""), ctx.loc(b, bad[0]) if bad else ctx.loc(b))
+    ctx.floor("R4", "matcher front-ends over a FingerprintCollection", n, 4)
+
+
 def run(ctx):
+    rule_matchers_forward(ctx)
     rule_shared(ctx)
     rule_quality_table(ctx)
     rule_R1_R2(ctx)
